@@ -132,10 +132,9 @@ def shapes():
     res['client-hello-repeated-signalling-suites'] = (TlsHandshakeClientHello, lambda n: hello_with_suites([known[i % len(known)] for i in range(n // 2)] + [0x5600, 0x00ff] * (n // 4)))
     res['client-hello-signalling-suites-first'] = (TlsHandshakeClientHello, lambda n: hello_with_suites([0x00ff, 0x5600] * (n // 2) + [known[0]]))
     # a certificate in the place of the signing key of a certificate, n / 8 times over
-    from cryptoparser.ssh.key import SshHostPublicKeyVariant, SshHostCertificateV01EDDSA
-    certs = [v for c, vs in sweep.library_vectors().items() if c is SshHostCertificateV01EDDSA for v in vs]
-    if certs:
-        cert = certs[0]
+    from cryptoparser.ssh.key import SshHostPublicKeyVariant
+    cert_vectors = sorted((sweep.qualname(c), vs[0]) for c, vs in sweep.library_vectors().items() if 'SshHostCertificateV0' in sweep.qualname(c) and vs)
+    for cname, cert in cert_vectors:
         spots = [i for i, _b in sweep.self_nested(cert, 1, limit=64)]
 
         def nested(n, cert=cert, spots=spots):
@@ -150,7 +149,7 @@ def shapes():
                         except Exception:  # pylint: disable=broad-except
                             pass
             return best or cert
-        res['ssh-certificate-nested-in-signing-key'] = (SshHostPublicKeyVariant, nested)
+        res['ssh-certificate-nested-in-signing-key-%s' % cname.rsplit('.', 1)[1]] = (SshHostPublicKeyVariant, nested)
     return res
 
 
